@@ -19,6 +19,7 @@ def run(run, tier, seed):
     d = vlib.design_check("MC_AlignSnp", "MC_AlignSnp_small", "c17-rel", workers=8, timeout=900)
     run.add_design(d)
     replay_entries(run, tier, seed)
+    replay_ref(run, tier, seed)
     events = lodrv.snp_events(run, tier, seed + 17, "c17")
     # scenarios where only the ancestor satisfies the uniqueness precondition are skipped by the trace
     # specification; classify them here (known finding K17 when the columns are wrong)
@@ -114,6 +115,70 @@ def replay_entries(run, tier, seed, module="MC_LoGraph", tag="c17-graph", nq=400
             run.nontriv(["entries", beh["samples"]])
     if behs:
         run.sample({"replayed_behaviour": behs[0]})
+
+
+def replay_ref(run, tier, seed):
+    """B for `ska lo -r`: MC_LoRef's scenarios (LoCall!LoCallRef at k = 7; design theorem: a placed site is at its true
+    coordinate with the true alleles and the pseudo-genomes are the reference with each sample's allele) through
+    `ska build -k 7` + `ska lo -r ref.fa`: SNP alignment, VCF records and pseudo-genomes must be the model's."""
+    import random, concurrent.futures, skacli
+    d = vlib.design_check("MC_LoRef", "MC_LoRef_quick" if tier == "quick" else "MC_LoRef", "c17-ref", workers=12,
+                          timeout=3000, want_replay=True)
+    run.add_design(d)
+    behs = d["replay"]
+    rng = random.Random(seed + 1)
+    rng.shuffle(behs)
+    behs = behs[:int(os.environ.get("VERIF_LOREF_N", 250 if tier == "quick" else 8000))]
+
+    def one(args):
+        i, beh = args
+        sub = skacli.Sandbox("c17r%d" % i)
+        try:
+            sub.reset()
+            samples = [[bytes(x).decode()] for x in beh["samples"]]
+            e = sub.build("g", samples, ["g%d" % j for j in range(len(samples))], beh["k"], True)
+            if not e.get("ok"):
+                return {"ok": False, "why": "build failed"}
+            ref = os.path.join(sub.dir, "ref.fa")
+            open(ref, "w").write(">anc\n%s\n" % bytes(beh["ref"]).decode())
+            out = os.path.join(sub.dir, "out")
+            rc, so, se = vlib.ska_cli(["lo", sub.path("g"), out, "-r", ref])
+            if beh["panic"]:
+                return {"ok": rc != 0, "why": "LoCallRef says the code indexes a path out of range here, but the run succeeded"}
+            if rc != 0:
+                return {"ok": False, "why": "ska lo -r failed: " + se.decode(errors="replace")[-150:]}
+            nm, seqs = vlib.parse_fasta_text(open(out + "_snps.fas").read())
+            n = len(seqs[0]) if seqs else 0
+            c_real = ["".join(x[j] for x in seqs) for j in range(n)]
+            c_model = ["".join(chr(x) for x in col) for col in beh["columns"]]
+            if c_real != c_model:
+                return {"ok": False, "why": "SNP alignment differs from LoCallRef's", "expected": c_model, "actual": c_real}
+            v_real = []
+            for line in open(out + "_snps.vcf"):
+                if not line.startswith("#"):
+                    f = line.rstrip("\n").split("\t")
+                    v_real.append([int(f[1]), f[3], f[4], f[9:]])
+            v_model = [[r["pos"], chr(r["ref"]), ",".join(chr(x) for x in r["alt"]), ["." if x < 0 else str(x) for x in r["gts"]]]
+                       for r in beh["vcf"]]
+            if v_real != v_model:
+                return {"ok": False, "why": "VCF records differ from LoCallRef's", "expected": v_model, "actual": v_real}
+            pn, pseq = vlib.parse_fasta_text(open(out + "_pseudo_genomes.fas").read())
+            p_model = ["".join(chr(x) for x in s_) for s_ in beh["pseudo"]]
+            if pseq != p_model:
+                return {"ok": False, "why": "pseudo-genomes differ from LoCallRef's", "expected": p_model, "actual": pseq}
+            return {"ok": True}
+        finally:
+            sub.close()
+
+    with concurrent.futures.ThreadPoolExecutor(max_workers=12) as ex:
+        res = list(ex.map(one, list(enumerate(behs))))
+    run.replayed += len(behs)
+    for beh, v in zip(behs, res):
+        if not v["ok"]:
+            run.fail({"kind": "replay", "behaviour": beh, "verdict": v}, "ska lo -r diverges from LoCallRef: %s" % v["why"])
+        elif beh["placed"]:
+            run.nontriv(["loref", beh["samples"], beh["ref"]])
+    run.extra["loref_scenarios_placed"] = sum(1 for b_ in behs if b_["placed"])
 
 
 def finish(run, events, tag, tier):
